@@ -533,6 +533,15 @@ pub fn run(args: &Args) -> Value {
         ("C04", None, QmcSpec { nvars: 3, bonds: vec![exch(vec![0, 1], 0.5, 1.0, 0.5), exch(vec![1, 2], 1.0, 0.25, 1.0), exch(vec![0, 2], 0.25, 0.5, 0.75),
             BondSpec { kind: 3, mat: vec![0.75, 0.25], vars: vec![0] },
             BondSpec { kind: 2, mat: vec![0.25, 0.5, 0.5, 0.75, 0.5, 0.25, 1.0, 2.5], vars: vec![0, 1, 2] }], state: vec![false, true, false], loops: true, hb: false }),
+        // a term on no variables (pure energy shift; its operators form clusters by themselves, fix 2af70d2)
+        ("C04", None, QmcSpec { nvars: 2, bonds: vec![cst(0, 1.0), cst(1, 0.5), BondSpec { kind: 2, mat: vec![2.0, 1.0, 1.0, 2.0], vars: vec![0, 1] },
+            BondSpec { kind: 2, mat: vec![1.5], vars: vec![] }], state: vec![false, true], loops: false, hb: false }),
+        // a single-site diagonal table with equal entries is only an energy shift: it must not act as a
+        // cluster boundary (cluster updates are on here through the constant full matrix on site 0)
+        ("C04", None, QmcSpec { nvars: 2, bonds: vec![BondSpec { kind: 2, mat: vec![2.0, 0.5, 0.5, 2.0], vars: vec![0, 1] }, cst(0, 0.75),
+            BondSpec { kind: 2, mat: vec![1.5, 1.5], vars: vec![1] }], state: vec![true, false], loops: false, hb: false }),
+        ("C02,C04", None, QmcSpec { nvars: 2, bonds: vec![BondSpec { kind: 2, mat: vec![2.0, 0.5, 0.5, 2.0], vars: vec![0, 1] }, cst(0, 0.75),
+            BondSpec { kind: 2, mat: vec![1.5, 1.5], vars: vec![1] }], state: vec![false, false], loops: false, hb: true }),
         ("C04", Some("odd-parity"), QmcSpec { nvars: 2, bonds: vec![BondSpec { kind: 0, mat: vec![2.0, 1.0, 1.0, 0.5], vars: vec![0] },
             BondSpec { kind: 0, mat: vec![2.0, 1.0, 1.0, 0.5], vars: vec![1] }, BondSpec { kind: 3, mat: vec![1.0, 0.0, 0.0, 1.0], vars: vec![0, 1] }],
             state: vec![true, false], loops: true, hb: false }),
@@ -559,6 +568,10 @@ pub fn run(args: &Args) -> Value {
                 e.1 *= jscale;
             }
             s.h *= hscale;
+            // ladders 2.. also vary the transverse field between neighbours (with and without a longitudinal field)
+            if li >= 2 {
+                s.gamma *= [1.0, 2.0, 0.5, 1.0, 1.5][k];
+            }
             s.cutoff = 1 + k;
             s.hb = li >= 6;
             specs.push(s);
@@ -589,5 +602,5 @@ pub fn run(args: &Args) -> Value {
     json!({"files": [], "evaluations": n_runs, "distinct_nontrivial": n_runs, "steps_per_run": nsteps,
         "ising_runs": ising_jobs.len(), "generic_runs": generic_jobs.len(), "tempering_ladders": ladder_jobs.len(),
         "oracle_failures": oracle_failures, "samples": samples,
-        "rule": "long runs (48k steps quick, 480k thorough, 10% warm-up, 20 bins) of the real samplers on 2-3 spin models (chain with mixed signs, frustrated triangles, multi-edge, unequal |J|; each with h = 0 / + / -; initial cutoffs 1..6; beta 0.5 / 1) with the default pipeline, heat bath, automatic and explicit RVB; generic interaction sets (exchange + loops, symmetric diagonal + constant terms with clusters, 3-variable diagonal terms, mixed arities, heat bath on/off; beta 0.5 / 1); tempering ladders of 2-5 replicas (beta, coupling and field ladders, serial and rayon, swap periods 1-3, heat bath on two ladders); compared with dense exact diagonalisation: energy, magnetisations, correlations, mean operator count per bond; tolerance 6 sigma + 0.02; a statistical failure is reported only when a second, 4x longer run from another seed fails too"})
+        "rule": "long runs (48k steps quick, 480k thorough, 10% warm-up, 20 bins) of the real samplers on 2-3 spin models (chain with mixed signs, frustrated triangles, multi-edge, unequal |J|; each with h = 0 / + / -; initial cutoffs 1..6; beta 0.5 / 1) with the default pipeline, heat bath, automatic and explicit RVB; generic interaction sets (exchange + loops, symmetric diagonal + constant terms with clusters, constant single-site diagonal tables, 3-variable diagonal terms, mixed arities, heat bath on/off; beta 0.5 / 1); tempering ladders of 2-5 replicas (beta, coupling, transverse- and longitudinal-field ladders, serial and rayon, swap periods 1-3, heat bath on two ladders); compared with dense exact diagonalisation: energy, magnetisations, correlations, mean operator count per bond; tolerance 6 sigma + 0.02; a statistical failure is reported only when a second, 4x longer run from another seed fails too"})
 }
